@@ -84,7 +84,7 @@ CHECKS = {
         "level_note": "sampling of an unbounded input space; messages that are valid protocol requests (e.g. a well-formed routing update about a "
                       "real node, a duplicate-node notice) are honoured by design and are not generated",
         "quick": {"runs": 640, "per_proc": 40},
-        "thorough": {"runs": 60000, "per_proc": 200},
+        "thorough": {"runs": 20000, "per_proc": 100},
         "hang_is_violation": True,
         "proc_timeout": 90,
         "rule": "one run = victim with two real neighbours (one datagram link, one framed link) and two scripted peers (datagram session, "
